@@ -123,6 +123,13 @@ def run(db, chk) -> None:
         ret = r.ret
         chk.ob("C02.R3-mutual-stores", f"{tag}: the frame returned is the frame that was linked", isinstance(ret, Frame) and ret.base == DF and ret.obj == init[0]["obj"] if init else False, where,
                found=repr(ret)[:80], accepted="df")
+    tfm = db.mod("hta.common.trace_filter")
+    for q in ("_filter_gpu_kernels_with_cuda_sync", "GPUKernelFilter.__call__", "CPUOperatorFilter.__call__"):
+        callees = [q] + [c for c in tfm.functions if "." not in c and any(isinstance(x, ast.Call) and H.name_id(x.func) == c for x in ast.walk(tfm.func(q)))]
+        for cq in callees:
+            sm = H.shared_state_mutations(tfm, tfm.func(cq))
+            chk.ob("C02.R1-side-tables", f"{cq}: the side predicate is computed from the symbol table passed in, with no state kept across calls", not sm, tfm.loc(tfm.func(cq)), found=sm, accepted="no module-/class-level cache",
+                   why="ids cached per table object go stale when the table grows or its id() is reused: sync events are then put on the wrong side")
     chk.floor("C02.R1-side-tables", 1)
     chk.floor("C02.R3-mutual-stores", 2)
 
